@@ -538,6 +538,11 @@ func subOverflows(a, b Integer) bool {
 //@ loop 1 invariant [C07.end] forall k :: 0 <= k && k < i ==> intp.cmapRanges[k].Dst == intp.Stack[base+3*k+2] && isType(intp.Stack[base+3*k], String) && isType(intp.Stack[base+3*k+1], String) && ref(intp.cmapRanges[k].Low) == ref(intp.Stack[base+3*k].(String)) && ref(intp.cmapRanges[k].High) == ref(intp.Stack[base+3*k+1].(String)) && len(intp.cmapRanges[k].Low) == len(intp.cmapRanges[k].High)
 
 // ---------------------------------------------------------------------
+// specIsHex: the hexadecimal digits of the Type 1 font format, section 7.2.
+func specIsHex(b byte) bool {
+	return b >= '0' && b <= '9' || b >= 'a' && b <= 'f' || b >= 'A' && b <= 'F'
+}
+
 // C05: eexec decryption (Adobe Type 1 Font Format section 7: key 55665,
 // multipliers 52845 and 22719)
 
@@ -552,6 +557,8 @@ func subOverflows(a, b Integer) bool {
 //@ ensures [C05.begin.nested] old(s.eexec) != 0 ==> isPSErr(result, eInvalidaccess) && s.eexec == old(s.eexec)
 //@ ensures [C05.begin.mode] result == nil ==> (s.eexec == 1 || s.eexec == 2) && !s.regurgitate
 //@ loop 1 invariant [C05.begin] s.eexec == 0
+//@ loop 2 invariant [C05.begin.detect] !isBinary && s.eexec == 0 && (forall k :: 0 <= k && k < rangeidx ==> specIsHex(bb[k]))
+//@ loop 2 exit-when [C05.begin.detect] isBinary == !(forall k :: 0 <= k && k < len(bb) ==> specIsHex(bb[k]))
 
 //@ func (*scanner).readByteEexec
 //@ ensures [C05.binary] old(s.eexec) == 2 && result1 == nil ==> s.eexec == 2
